@@ -195,10 +195,56 @@ fn boundary_xs(qs: &[u64], t: u64, seed: u64) -> Vec<BigU> {
         let k = h64(&(seed, i, "c10-fill")) | 1;
         c.push(bi(&q.mul_u64(k).shr(64)));
     }
+    // residue-level boundaries (seeded round 4: "congruent to zero taken as zero", a centred reduction wrong at exactly (m+1)/2, a
+    // correction skipped when ONE residue is a multiple of ANOTHER prime): one residue is set to a special value, the others are
+    // generic, the integer is recovered by CRT. Special values of residue i: 0, 1, 2, m-1, m-2, (m-1)/2, (m+1)/2 and k*m_j < m for the
+    // other primes m_j (and t), k = 1, 2, 3.
+    if qs.len() >= 2 && qs.iter().all(|&m| m > 2) {
+        let coprime = (0..qs.len()).all(|i| (0..i).all(|j| gcd_u64(qs[i], qs[j]) == 1));
+        if coprime {
+            for i in 0..qs.len() {
+                let m = qs[i];
+                let mut sp: Vec<u64> = vec![0, 1, 2 % m, m - 1, m - 2, (m - 1) / 2, (m + 1) / 2 % m];
+                for (j, &mj) in qs.iter().enumerate() {
+                    if j != i {
+                        for k in 1..=3u64 {
+                            if let Some(v) = mj.checked_mul(k) {
+                                if v < m {
+                                    sp.push(v);
+                                }
+                            }
+                        }
+                    }
+                }
+                if t > 1 {
+                    for k in 1..=2u64 {
+                        if let Some(v) = t.checked_mul(k) {
+                            if v < m {
+                                sp.push(v);
+                            }
+                        }
+                    }
+                }
+                sp.sort_unstable();
+                sp.dedup();
+                for (f, &v) in sp.iter().enumerate() {
+                    let res: Vec<u64> = (0..qs.len()).map(|j| if j == i { v } else { (h64(&(seed, i as u64, j as u64, (f % 2) as u64, "c10-res")) % qs[j]).max(1) }).collect();
+                    c.push(bi(&crt(&res, qs)));
+                }
+            }
+        }
+    }
     let mut v: Vec<BigU> = c.into_iter().filter(|x| !x.neg && x.mag < q).map(|x| x.mag).collect();
     v.sort();
     v.dedup();
     v
+}
+
+fn gcd_u64(mut a: u64, mut b: u64) -> u64 {
+    while b != 0 {
+        (a, b) = (b, a % b);
+    }
+    a
 }
 
 // ------------------------------------------------------------------------------------------
@@ -747,6 +793,17 @@ fn r_fastbconv_sk(tool: &RNSTool, a: &Aux, xs: &[BigU], all: bool, acc: &mut Acc
     for &e in &es {
         for y in &ys {
             items.push(bi(y).add(&bi_b.mul(&BigI::from_i128(e))));
+        }
+    }
+    // values congruent to 0 (and to +-1) modulo exactly one of the moduli involved, without being 0
+    let mut involved: Vec<u64> = a.bsk.clone();
+    involved.extend(&a.q);
+    involved.extend([a.mt, a.t, a.gamma]);
+    for m in involved.into_iter().filter(|&m| m > 1) {
+        for k in [1i128, 2, 3, -1, -2, -3] {
+            for d in [0i128, 1, -1] {
+                items.push(BigI::from_i128(k * m as i128 + d));
+            }
         }
     }
     for ch in chunks(&items, n) {
